@@ -1144,6 +1144,22 @@ def rt_c05(tier="quick", first_only=False, count=None):
             want = np.log(0.25 * st.norm(-1, 0.5).pdf(xx) + 0.75 * st.norm(2, 1.5).pdf(xx))
             if not _close(mix.log_prob(xx), want, tol=1e-9):
                 fails.append(dict(what=f"VmapMixture(weights {w.tolist()}).log_prob({xx}) = {float(mix.log_prob(xx))!r}; weight-normalised sum of component densities gives {want!r}", case=dict(family="VmapMixture")))
+    # a TRAINED mixture (every trainable leaf moved): still the weight-normalised sum of its component densities
+    from flowjax.wrappers import unwrap as _unwrap
+    for seed in (1, 2):
+        n += 1
+        mix = _perturb(Dm.VmapMixture(eqx.filter_vmap(Dm.Normal)(jnp.array([-1.0, 2.0, 0.5]), jnp.array([0.5, 1.5, 1.0])), jnp.array([1.0, 3.0, 2.0])), seed, scale=0.7)
+        um = _unwrap(mix)
+        locs, scales = np.asarray(um.dist.loc), np.asarray(um.dist.scale)
+        lw = np.asarray(um.log_normalized_weights, float)
+        wn = np.exp(lw - np.max(lw))
+        wn = wn / wn.sum()
+        for xx in (0.3, -2.0, 4.0):
+            want = np.log(sum(wn[i] * st.norm(locs[i], scales[i]).pdf(xx) for i in range(3)))
+            if not _close(mix.log_prob(xx), want, tol=1e-9):
+                fails.append(dict(what=f"VmapMixture after an update of every trainable leaf: log_prob({xx}) = {float(mix.log_prob(xx))!r}; weight-normalised sum of its component densities gives {want!r} (weights sum to {float(np.exp(lw).sum())!r})", case=dict(family="VmapMixture(trained)", seed=seed)))
+                if first_only:
+                    return fails
     umix = Dm.VmapMixture(eqx.filter_vmap(Dm.Uniform)(jnp.array([0.0, 2.0]), jnp.array([1.0, 3.0])), np.array([1.0, 1.0]))
     n += 1
     v = float(umix.log_prob(5.0))
@@ -1459,6 +1475,8 @@ def bijection_zoo():
         ("Concatenate", B.Concatenate([aff(2), B.Exp((3,))]), None), ("Stack", B.Stack([aff(2), B.Tanh((2,))], axis=-1), None), ("Partial", B.Partial(B.Exp((2,)), jnp.array([0, 2]), (4,)), None),
         ("Reshape", B.Reshape(aff(4), (2, 2)), None), ("EmbedCondition", B.EmbedCondition(B.AdditiveCondition(lambda c: c.sum(), (2,), (1,)), lambda c: c[:1] * 2, (3,)), 3),
         ("Coupling", _perturb(B.Coupling(k, transformer=B.Affine(), untransformed_dim=1, dim=3, nn_width=4, nn_depth=1), 2), None),
+        ("Coupling(cond)", _perturb(B.Coupling(k, transformer=B.Affine(), untransformed_dim=2, dim=3, cond_dim=2, nn_width=4, nn_depth=1), 3), 2),
+        ("MaskedAutoregressive(uncond, spline)", _perturb(B.MaskedAutoregressive(k, transformer=B.RationalQuadraticSpline(knots=3, interval=2.0), dim=3, nn_width=5, nn_depth=1), 6), None),
         ("MaskedAutoregressive", _perturb(B.MaskedAutoregressive(k, transformer=B.Affine(), dim=3, cond_dim=2, nn_width=4, nn_depth=1), 2), 2),
     ]
     try:
@@ -1799,10 +1817,16 @@ def rt_zoo_B(prop, first_only=False, count=None, only=None):
         for x in pts:
             n += 1
             x = jnp.asarray(x)
+            case = dict(obj=name)
             try:
                 y = b.transform(x, c)
                 y2, ld = b.transform_and_log_det(x, c)
             except NotImplementedError:
+                continue
+            except Exception as ex:  # noqa: BLE001
+                fails.append(dict(what=f"{name}: transform of a point of the declared shape raised {type(ex).__name__}: {str(ex)[:200]}", case=case))
+                if first_only:
+                    return fails
                 continue
             has_inv = True
             try:
@@ -1810,7 +1834,11 @@ def rt_zoo_B(prop, first_only=False, count=None, only=None):
                 xb2, ldi = b.inverse_and_log_det(y, c)
             except NotImplementedError:
                 has_inv = False
-            case = dict(obj=name)
+            except Exception as ex:  # noqa: BLE001
+                fails.append(dict(what=f"{name}: inverse of the forward image of x = {np.asarray(x).ravel()[:4].tolist()} raised {type(ex).__name__}: {str(ex)[:200]}", case=case))
+                if first_only:
+                    return fails
+                continue
             J = jax.jacobian(lambda v: b.transform(v, c).ravel())(x).reshape(int(np.prod(b.shape, dtype=int)), -1) if b.shape != () else jnp.reshape(jax.jacobian(lambda v: b.transform(v, c))(x), (1, 1))
             sign, logabs = np.linalg.slogdet(np.asarray(J, float))
             tol = 1e-5 if name == "BlockAutoregressiveNetwork" else 1e-7
